@@ -227,7 +227,9 @@ def _generate_ctls_with_code_map(snapshot, start, end, config, rst_handler, code
                     continue
                 if _find_terminal_instruction(snapshot, ctls, b_end, end, rst_handler) < end:
                     done = False
-                    break
+                # The directives of the blocks that follow may have been
+                # removed, so don't use the stale list any further
+                break
         if done:
             break
 
